@@ -22,7 +22,7 @@ End M_C05_chain.
 Module M_C05_multistage_total.
 Import Inst.
 Theorem C05_multistage_total :
-  forall (tr : NAdvance.traj) (N S : Z) (label : nat -> MSPot.storage) (s : MSPot.st) (x : MSPot.xst),
+  forall (tr : NAdvance.traj) (N S : Z) (label : nat -> Actions.storage) (s : MSPot.st) (x : MSPot.xst),
          MSPot.Inv (TC tr) N S label s x -> MSPot.pcv s = MSPot.PDone -> MSPot.done x = TC tr N S.
 Proof. exact (@Inst.C05_multistage_total). Qed.
 Print Assumptions C05_multistage_total.
